@@ -9,12 +9,18 @@ package ref
 // Besides the bytes, the writer remembers where every *length prefix* sits (SCALE compact length of a
 // Vec / byte string, protobuf LEN varint) so that C33 can splice crafted lengths into valid messages.
 
+import (
+	"fmt"
+	"sort"
+)
+
 // C14Mark locates one length prefix inside an encoding.
 type C14Mark struct {
 	Off   int    // offset of the first byte of the prefix
 	Width int    // number of bytes the prefix occupies
-	Kind  string // "scale-len" | "pb-len"
+	Kind  string // "scale-vec-len" (count of a Vec) | "scale-bytes-len" (length of a byte string) | "pb-len"
 	What  string // which field (for signatures)
+	Pay   int    // pb-len: length of the payload that follows the prefix
 }
 
 // C14Buf is the reference writer.
@@ -57,13 +63,17 @@ func (b *C14Buf) Compact(n uint64) *C14Buf { b.B = append(b.B, Compact(n)...); r
 // Len appends a SCALE compact integer that is the length of what follows and marks it.
 func (b *C14Buf) Len(n int, what string) *C14Buf {
 	c := Compact(uint64(n))
-	b.Marks = append(b.Marks, C14Mark{Off: len(b.B), Width: len(c), Kind: "scale-len", What: what})
+	b.Marks = append(b.Marks, C14Mark{Off: len(b.B), Width: len(c), Kind: "scale-vec-len", What: what})
 	b.B = append(b.B, c...)
 	return b
 }
 
 // Bytes appends a SCALE byte string: Compact(len) ++ bytes.
-func (b *C14Buf) Bytes(p []byte, what string) *C14Buf { b.Len(len(p), what); return b.Raw(p...) }
+func (b *C14Buf) Bytes(p []byte, what string) *C14Buf {
+	b.Len(len(p), what)
+	b.Marks[len(b.Marks)-1].Kind = "scale-bytes-len"
+	return b.Raw(p...)
+}
 
 // Append appends another buffer, keeping its marks.
 func (b *C14Buf) Append(o *C14Buf) *C14Buf {
@@ -116,7 +126,7 @@ func (b *C14Buf) PBVarintOpt(field int, v uint64) *C14Buf {
 func (b *C14Buf) PBBytes(field int, p *C14Buf, what string) *C14Buf {
 	b.B = append(b.B, C14Varint(uint64(field)<<3|2)...)
 	l := C14Varint(uint64(len(p.B)))
-	b.Marks = append(b.Marks, C14Mark{Off: len(b.B), Width: len(l), Kind: "pb-len", What: what})
+	b.Marks = append(b.Marks, C14Mark{Off: len(b.B), Width: len(l), Kind: "pb-len", What: what, Pay: len(p.B)})
 	b.B = append(b.B, l...)
 	return b.Append(p)
 }
@@ -146,6 +156,34 @@ func C14Splice(enc []byte, m C14Mark, n uint64) []byte {
 	return append(out, enc[m.Off+m.Width:]...)
 }
 
+// C14SpliceNested is C14Splice for an encoding with nested protobuf messages: the length prefix at
+// marks[mi] is replaced by n and the length prefixes of every enclosing length-delimited field are
+// adjusted to the new size of their payload, so that only the chosen prefix lies.
+func C14SpliceNested(enc []byte, marks []C14Mark, mi int, n uint64) []byte {
+	m := marks[mi]
+	out := C14Splice(enc, m, n)
+	delta := len(out) - len(enc)
+	if delta == 0 {
+		return out
+	}
+	// enclosing marks, innermost first (marks are recorded outer-before-inner, so walk backwards)
+	for i := mi - 1; i >= 0; i-- {
+		e := marks[i]
+		if e.Kind != "pb-len" || !(e.Off+e.Width <= m.Off && m.Off < e.Off+e.Width+e.Pay) {
+			continue
+		}
+		// e lies before m, so its offset in out is unchanged
+		repl := C14Varint(uint64(e.Pay + delta))
+		o2 := append([]byte{}, out[:e.Off]...)
+		o2 = append(o2, repl...)
+		o2 = append(o2, out[e.Off+e.Width:]...)
+		delta += len(repl) - e.Width
+		// later marks shift, but only m and enclosing ones (all before) matter from here on
+		out = o2
+	}
+	return out
+}
+
 // C14Fill returns n bytes start, start+step, ... (deterministic, position dependent contents).
 func C14Fill(n int, start, step byte) []byte {
 	out := make([]byte, n)
@@ -157,8 +195,103 @@ func C14Fill(n int, start, step byte) []byte {
 	return out
 }
 
+// C14Tame returns n bytes that are zero except the sixth (start, when n > 6) and the last (01).  Used for the
+// byte strings and hashes of C33 catalogue entries: when a neighbouring length prefix is substituted
+// into a 4-byte or big-integer mode, or a count is substituted so that the parse shifts, the bytes that
+// follow are read as lengths; zeros keep the lengths declared inside the deviation neighbourhood small
+// (on the unchanged tree every declared length is allocated and cleared up front, which makes each such
+// input cost milliseconds; large declared lengths are the business of the crafted-length phase).
+func C14Tame(n int, start byte) []byte {
+	out := make([]byte, n)
+	if n > 0 {
+		out[n-1] = 1
+	}
+	if n > 6 {
+		out[5] = start // not among the first four bytes: those become the high bytes of a substituted prefix
+	}
+	return out
+}
+
+// C14TameHash32 is C14Tame(32, start) as an array.
+func C14TameHash32(start byte) (h [32]byte) {
+	copy(h[:], C14Tame(32, start))
+	return h
+}
+
 // C14Hash32 returns a 32-byte pattern as an array.
 func C14Hash32(start, step byte) (h [32]byte) {
 	copy(h[:], C14Fill(32, start, step))
 	return h
+}
+
+// C14PBCanon re-orders the records of a protobuf message by field number (stable: elements of a
+// repeated field keep their order), recursively inside the length-delimited fields listed in nested
+// (paths like "1" or "1.2").  The wire format leaves the order of fields within a message unspecified,
+// so two encodings are the same message byte for byte iff their canonical forms are equal.  Only wire
+// types 0 (varint) and 2 (length delimited) occur in the schemas at hand; anything else is an error.
+func C14PBCanon(msg []byte, nested map[string]bool, path string) ([]byte, error) {
+	type rec struct {
+		field uint64
+		raw   []byte
+	}
+	var recs []rec
+	readVarint := func(p []byte) (uint64, int, error) {
+		var v uint64
+		for i := 0; i < len(p) && i < 10; i++ {
+			v |= uint64(p[i]&0x7f) << (7 * uint(i))
+			if p[i] < 0x80 {
+				return v, i + 1, nil
+			}
+		}
+		return 0, 0, fmt.Errorf("bad varint")
+	}
+	for off := 0; off < len(msg); {
+		tag, n, err := readVarint(msg[off:])
+		if err != nil {
+			return nil, err
+		}
+		start := off
+		off += n
+		field, wt := tag>>3, tag&7
+		switch wt {
+		case 0:
+			_, n, err := readVarint(msg[off:])
+			if err != nil {
+				return nil, err
+			}
+			off += n
+			recs = append(recs, rec{field, append([]byte{}, msg[start:off]...)})
+		case 2:
+			l, n, err := readVarint(msg[off:])
+			if err != nil || uint64(len(msg)-off-n) < l {
+				return nil, fmt.Errorf("bad length")
+			}
+			off += n
+			payload := msg[off : off+int(l)]
+			off += int(l)
+			sub := fmt.Sprint(field)
+			if path != "" {
+				sub = path + "." + sub
+			}
+			if nested[sub] {
+				c, err := C14PBCanon(payload, nested, sub)
+				if err != nil {
+					return nil, err
+				}
+				raw := append([]byte{}, msg[start:start+len(C14Varint(tag))]...)
+				raw = append(raw, C14Varint(uint64(len(c)))...)
+				recs = append(recs, rec{field, append(raw, c...)})
+			} else {
+				recs = append(recs, rec{field, append([]byte{}, msg[start:off]...)})
+			}
+		default:
+			return nil, fmt.Errorf("wire type %d", wt)
+		}
+	}
+	sort.SliceStable(recs, func(i, j int) bool { return recs[i].field < recs[j].field })
+	var out []byte
+	for _, r := range recs {
+		out = append(out, r.raw...)
+	}
+	return out, nil
 }
